@@ -40,7 +40,8 @@ class MinimizeStub:
 
     def __call__(self, fun, x0, args=(), method=None, jac=None, hess=None, hessp=None, bounds=None,
                  constraints=(), tol=None, callback=None, options=None, **kw):
-        rec = dict(fun=fun, x0=x0, method=method, jac=jac, hess=hess, bounds=bounds,
+        rec = dict(fun=fun, x0=np.array(x0, dtype=object, copy=True), method=method, jac=jac, hess=hess,
+                   bounds=None if bounds is None else [tuple(b) for b in bounds],
                    constraints=constraints, tol=tol, options=options, kw=kw)
         self.calls.append(rec)
         k = len(self.calls)
@@ -83,7 +84,10 @@ class LinprogStub:
         self.tag = tag
 
     def __call__(self, c, A_ub=None, b_ub=None, A_eq=None, b_eq=None, bounds=None, method="highs", **kw):
-        rec = dict(c=c, A_ub=A_ub, b_ub=b_ub, A_eq=A_eq, b_eq=b_eq, bounds=bounds, method=method, kw=kw)
+        # snapshot the arrays: the caller may mutate them in place after the call
+        snap = lambda a: None if a is None else np.array(a, dtype=object, copy=True)  # noqa: E731
+        rec = dict(c=snap(c), A_ub=snap(A_ub), b_ub=snap(b_ub), A_eq=snap(A_eq), b_eq=snap(b_eq),
+                   bounds=None if bounds is None else [tuple(b) for b in bounds], method=method, kw=kw)
         self.calls.append(rec)
         k = len(self.calls)
         if self.mode == "raise":
